@@ -44,6 +44,11 @@ def main():
     finally:
         subprocess.run("git -C /repo checkout -- . && git -C /repo clean -fdq -e target", shell=True)
     json.dump({"ran": props, "results": results}, open(os.path.join(d, "detection.json"), "w"), indent=1)
+    # the evidence files must describe the unchanged tree: re-run what was run, now on the clean tree
+    for p in props:
+        r = subprocess.run(["./check", p, "--tier", "quick"], cwd=VERIF, stdout=subprocess.PIPE, stderr=subprocess.STDOUT)
+        if r.returncode != 0:
+            print("WARNING: %s does not pass on the clean tree after the run" % p)
     caught = [p for p, v in results.items() if v["exit"] != 0]
     print("caught by:", caught)
     return 0
